@@ -240,6 +240,7 @@ def run(tier):
     P.run()
     from harness import probes
     probes.conversion_extra_probe(R)
+    probes.discriminator_schema_probe(R, {'agree'})
     header = P.header() + HEADER_EXTRA
     # 1. the builder model is the implementation's builder
     T1 = "univ * dopts * bool * option constraints * ty * option (js * defs)"
